@@ -469,38 +469,29 @@ def rule_r4(chk, db, model, router):
 
 
 def guards_dominating(body, target):
-    """switch outcomes that dominate `target`: list of ('discr', enum, variant) / ('eq_method', lit, bool)"""
+    """tested conditions that hold whenever `target` runs (s3sv/guards.py: dominating tests, stored decisions, merge points), in the form
+    ('discr', enum, variant) / ('eq_method', lit, bool) / ('call', callee, bool)"""
+    from .. import guards as _g
     out = []
-    for bi in body.live_blocks():
-        t = body.blocks[bi]["term"]
-        if t["k"] != "switch":
-            continue
-        src = paths.switch_source(body, t)
-        if src is None:
-            continue
-        edges = body.succ_edges(bi)
-        for lab, tb in edges:
-            others = frozenset((bi, l2) for l2, _ in edges if l2 != lab)
-            # target unreachable once every *other* edge... no: dominated by this edge = removing this edge makes target unreachable
-            if flow.must_pass(body, [target], [(bi, lab)]):
-                if src[0] == "discr":
-                    vals = paths.discr_values(t, src[1])
-                    out.append(("discr", src[1]["enum"], vals.get(lab)))
-                elif src[0] == "call":
-                    d = callee_def(src[1])
-                    vals = paths.bool_values(t, src[2])
-                    if d.endswith("PartialEq::eq") or d.endswith("PartialEq::ne"):
-                        lit = None
-                        for a in src[1]["args"]:
-                            c = flow.const_of(body, a)
-                            if c is not None and c.get("c") == "item" and "Method::" in c["def"]:
-                                lit = short(c["def"])
-                        v = vals.get(lab)
-                        if d.endswith("::ne") and v is not None:
-                            v = not v
-                        out.append(("eq_method", lit, v))
-                    else:
-                        out.append(("call", d, vals.get(lab)))
+    for f in _g.dominating_facts(body, target):
+        if f[0] == "enum":
+            for v in (f[2] if len(f[2]) == 1 else []):
+                out.append(("discr", f[1], v))
+        elif f[0] == "call":
+            d = f[1]
+            if d.endswith("PartialEq::eq") or d.endswith("PartialEq::ne"):
+                ct = body.blocks[f[3]]["term"]
+                lit = None
+                for a in ct.get("args", []):
+                    c = flow.const_of(body, a)
+                    if c is not None and c.get("c") == "item" and "Method::" in c["def"]:
+                        lit = short(c["def"])
+                v = f[2]
+                if d.endswith("::ne") and v is not None:
+                    v = not v
+                out.append(("eq_method", lit, v))
+            else:
+                out.append(("call", d, f[2]))
     return out
 
 
